@@ -1,6 +1,7 @@
 import Mkdb.Props.C11
 import Mkdb.Proofs.Forest
 import Mkdb.Proofs.RefineScan
+import Mkdb.Proofs.RefineHistory
 /-!
 # C01 — table contents always equal what the statement history implies
 
@@ -196,3 +197,36 @@ theorem C01_heap_scan_is_live (s : Store) (t : Levels) (nf : Nat) (hH : Holds s 
 example : Holds sampleStore sampleTree ∧ Filed sampleStore := ⟨sample_holds, sample_filed⟩
 
 end Mkdb.Refine
+
+namespace Mkdb.Store
+open Mkdb.Tree Mkdb.Page
+
+/-- **C01.heap_history** (the levels theorems carried to whole histories on the heap model): for every
+store whose page heap holds a well-formed tree `t` and every history of inserts, value changes and
+deletions (side conditions `RunOK`: inserts arrive in ascending key order or are refused, updated
+values fit a page cell, a row is deleted once, the tree stays within the 64-level fuel), running
+the history with the heap model's own code - `insertKeyHeap`, `findLeaf` + `updateCellAt`, the
+tombstone change of `MarkDeleted` - ends in a store whose heap holds exactly the tree the levels
+model computes, well formed, with the same allocation frontier... -/
+theorem C01_heap_history (ops : List HOp) (s : Store) (t : Levels)
+    (hH : Holds s t) (hI : Inv t s.hdr.nextFree) (hok : RunOK (t, s.hdr.nextFree) ops) :
+    ∃ s' root', heapRun (rootOff t) ops s = .ok root' s' ∧
+      root' = rootOff (runH (t, s.hdr.nextFree) ops).1 ∧
+      Holds s' (runH (t, s.hdr.nextFree) ops).1 ∧
+      Inv (runH (t, s.hdr.nextFree) ops).1 s'.hdr.nextFree ∧
+      s'.hdr.nextFree = (runH (t, s.hdr.nextFree) ops).2 :=
+  heapRun_refines ops s t hH hI hok
+
+/-- **C01.heap_history_scan**: ...and the scan SELECT reads the table with then returns exactly the live
+cells of that tree - by `C01_history` the plain list the history implies, without the tombstoned rows. -/
+theorem C01_heap_history_scan (ops : List HOp) (s : Store) (t : Levels)
+    (hH : Holds s t) (hI : Inv t s.hdr.nextFree) (hok : RunOK (t, s.hdr.nextFree) ops)
+    (hdepth : (runH (t, s.hdr.nextFree) ops).1.inner.length + 1 ≤ treeFuel)
+    (hlen : (runH (t, s.hdr.nextFree) ops).1.leaves.length ≤ scanFuel) :
+    ∃ s' root' res s'', heapRun (rootOff t) ops s = .ok root' s' ∧
+      scanRight root' s' = .ok res s'' ∧
+      res.map (·.1) = live (runH (t, s.hdr.nextFree) ops).1 ∧
+      Holds s'' (runH (t, s.hdr.nextFree) ops).1 :=
+  heapRun_scan ops s t hH hI hok hdepth hlen
+
+end Mkdb.Store
